@@ -147,11 +147,24 @@ def yield_after_finish(ctx: Ctx):
                      '' if ok else f'ProcessRunner.wait yields for `{src(lp.iter)}`, which is not the done partition returned by executor.wait')
     sdf = ctx.P.func('runners.process.split_done_futures')
     done_ok = False
-    for n in walk_local(sdf.node):
-        if isinstance(n, ast.If) and same_expr(n.test, ast.parse(f'{n.test.value.id}.done', mode='eval').body
-                                                if isinstance(n.test, ast.Attribute) and isinstance(n.test.value, ast.Name) else n.test) \
-                and isinstance(n.test, ast.Attribute) and n.test.attr == 'done':
-            done_ok = True
+    # semantic: an element reaches the first returned collection exactly when `<element>.done` (loop + append, or comprehension)
+    rets = [r for r in walk_local(sdf.node) if isinstance(r, ast.Return) and isinstance(r.value, ast.Tuple) and r.value.elts]
+    if rets:
+        first = rets[0].value.elts[0]
+        gs, rds = ctx.cfg(sdf), ctx.rd(sdf)
+        v = expand_locals(gs, rds, first, gs.primary(rets[0])) if isinstance(first, ast.Name) else first
+        if isinstance(v, (ast.ListComp, ast.GeneratorExp)) or (isinstance(v, ast.Call) and v.args and isinstance(v.args[0], (ast.ListComp, ast.GeneratorExp))):
+            comp = v if isinstance(v, (ast.ListComp, ast.GeneratorExp)) else v.args[0]
+            gen = comp.generators[0]
+            if len(comp.generators) == 1 and isinstance(gen.target, ast.Name) and isinstance(comp.elt, ast.Name) and comp.elt.id == gen.target.id and gen.ifs:
+                have = formula_of(ctx, sdf, ast.BoolOp(op=ast.And(), values=list(gen.ifs)) if len(gen.ifs) > 1 else gen.ifs[0])
+                done_ok = equivalent(have, formula_of(ctx, sdf, f'{gen.target.id}.done'))
+        elif isinstance(first, ast.Name):
+            for lp in [n for n in walk_local(sdf.node) if isinstance(n, ast.For) and isinstance(n.target, ast.Name)]:
+                apps = [c for c in calls_in(lp) if isinstance(c.func, ast.Attribute) and c.func.attr == 'append' and isinstance(c.func.value, ast.Name)
+                        and c.func.value.id == first.id and c.args and isinstance(c.args[0], ast.Name) and c.args[0].id == lp.target.id]
+                if apps:
+                    done_ok = equivalent(cond_in_loop(ctx, sdf, lp, apps[0]), formula_of(ctx, sdf, f'{lp.target.id}.done'))
     yield ctx.ob('C02.YIELD-AFTER-FINISH', done_ok, sdf, sdf.node, 'done partition is filtered by future.done',
                  '' if done_ok else 'split_done_futures does not partition by future.done', construct='done-filter')
 
@@ -865,3 +878,36 @@ def finally_cleanup(ctx: Ctx):
                 ok2 = True
     yield ctx.ob('C14.FINALLY-CLEANUP', ok2, fn, fn.node, 'process name restored in finally', '' if ok2 else
                  'run_or_load_task does not restore the process name in a finally block', construct='name-in-finally')
+
+
+@rule('C10.MLFLOW-IN-RUN', ['C10', 'C16'])
+def mlflow_in_run(ctx: Ctx):
+    """Every call of the mlflow fluent API made for a task lies inside that task's `with mlflow.start_run():` block (directly,
+    or in a local helper that is only called from inside it).  A fluent call outside an active run - in a handler after the
+    block has ended, say - silently starts a new run that nobody ends; on the serial backend every later mlflow task then fails
+    with "run already active", i.e. one task's failure takes unrelated tasks with it."""
+    fn = ctx.P.func('runners.base.optional_mlflow')
+    withs = [w for w in walk_local(fn.node) if isinstance(w, ast.With) and any(
+        isinstance(it.context_expr, ast.Call) and (dotted(it.context_expr.func) or '') == 'mlflow.start_run' for it in w.items)]
+    if not withs:
+        raise AnalysisError('optional_mlflow has no `with mlflow.start_run():` block')
+    inside = {id(x) for w in withs for b in w.body for x in ast.walk(b)}
+    # local helpers: fine if every call to them is inside the block
+    helper_ok: dict[str, bool] = {}
+    for h in fn.nested.values():
+        calls = [c for c in ast.walk(fn.node) if isinstance(c, ast.Call) and isinstance(c.func, ast.Name) and c.func.id == h.name
+                 and not any(x is c for x in ast.walk(h.node))]
+        helper_ok[h.name] = bool(calls) and all(id(c) in inside for c in calls)
+    n = 0
+    for f in [fn] + list(fn.nested.values()):
+        for c in calls_in(f.node):
+            d = dotted(c.func) or ''
+            if not d.startswith('mlflow.') or d == 'mlflow.start_run':
+                continue
+            n += 1
+            ok = id(c) in inside or (f is not fn and helper_ok.get(f.name, False))
+            yield ctx.ob('C10.MLFLOW-IN-RUN', ok, f, c, f'{d}() inside the task\'s mlflow run', '' if ok else
+                         f'`{src(c)[:50]}` is called outside `with mlflow.start_run()`: the fluent API starts an implicit run that is never ended, and '
+                         'every later mlflow task in the same process fails')
+    if n == 0:
+        raise AnalysisError('no mlflow fluent-API calls found in optional_mlflow')
